@@ -4,10 +4,38 @@
 #include <cstddef>
 #include <numeric>
 #include <stdexcept>
+#include <type_traits>
 #include <utility>
 #include <vector>
 
 namespace yardl {
+
+namespace detail {
+// Contiguous storage that, unlike std::vector<bool>, is a plain array for every T.
+template <typename T>
+class Buf {
+  using Raw = std::conditional_t<std::is_same_v<T, bool>, unsigned char, T>;
+  static_assert(sizeof(Raw) == sizeof(T));
+ public:
+  void resize(size_t n) { raw_.resize(n); }
+  size_t size() const { return raw_.size(); }
+  T* data() { return reinterpret_cast<T*>(raw_.data()); }
+  T const* data() const { return reinterpret_cast<T const*>(raw_.data()); }
+  T* begin() { return data(); }
+  T* end() { return data() + size(); }
+  T const* begin() const { return data(); }
+  T const* end() const { return data() + size(); }
+  T& operator[](size_t i) { return data()[i]; }
+  T const& operator[](size_t i) const { return data()[i]; }
+  bool operator==(Buf const& o) const {
+    if (size() != o.size()) return false;
+    for (size_t i = 0; i < size(); i++) if (!((*this)[i] == o[i])) return false;
+    return true;
+  }
+ private:
+  std::vector<Raw> raw_;
+};
+}  // namespace detail
 
 template <typename T, size_t... Dims>
 class FixedNDArray {
@@ -42,7 +70,7 @@ class NDArray {
   bool operator==(NDArray const& o) const { return shape_ == o.shape_ && data_ == o.data_; }
   bool operator!=(NDArray const& o) const { return !(*this == o); }
   std::array<size_t, N> shape_;
-  std::vector<T> data_;
+  detail::Buf<T> data_;
 };
 
 template <typename T>
@@ -56,7 +84,7 @@ class DynamicNDArray {
   bool operator==(DynamicNDArray const& o) const { return shape_ == o.shape_ && data_ == o.data_; }
   bool operator!=(DynamicNDArray const& o) const { return !(*this == o); }
   std::vector<size_t> shape_;
-  std::vector<T> data_;
+  detail::Buf<T> data_;
 };
 
 namespace detail {
